@@ -2371,6 +2371,24 @@ iwrc _jbl_node_from_binn(const binn *bn, struct jbl_node **node, bool clone_stri
   return rc;
 }
 
+// rfc6901 array index: "0", or digits without a leading zero (at most nine: the value fits an int)
+static bool _jbl_array_index(const char *s, int64_t *out) {
+  int64_t v = 0;
+  int i = 0;
+  if (s[0] == '0') {
+    *out = 0;
+    return s[1] == '\0';
+  }
+  for ( ; s[i]; ++i) {
+    if ((s[i] < '0') || (s[i] > '9') || (i >= 9)) {
+      return false;
+    }
+    v = v * 10 + (s[i] - '0');
+  }
+  *out = v;
+  return i > 0;
+}
+
 static struct jbl_node* _jbl_node_find(struct jbl_node *node, struct jbl_ptr *ptr, int from, int to) {
   if (!ptr || !node) {
     return 0;
@@ -2386,18 +2404,13 @@ static struct jbl_node* _jbl_node_find(struct jbl_node *node, struct jbl_ptr *pt
         }
       }
     } else if (n->type == JBV_ARRAY) {
-      if (*ptr->n[i] == '-' && *(ptr->n[i] + 1) == '\0') {
-        for (n = n->child; n; n = n->next) {
-          if (n->next == 0) {
-            break;
-          }
-        }
-      } else {
-        int64_t idx = iwatoi(ptr->n[i]);
-        for (n = n->child; n; n = n->next) {
-          if (idx == n->klidx) {
-            break;
-          }
+      int64_t idx;
+      if (!_jbl_array_index(ptr->n[i], &idx)) { // "-" is the (nonexistent) element after the last one, rfc6901 4
+        return 0;
+      }
+      for (n = n->child; n; n = n->next) {
+        if (idx == n->klidx) {
+          break;
         }
       }
     } else {
@@ -2670,7 +2683,11 @@ static iwrc _jbl_target_apply_patch(struct jbl_node *target, const struct jbl_pa
         }
         _jbn_add_item(parent, value); // Add to end of array
       } else {                        // Insert into the specified index
-        int idx = iwatoi(path->n[lastidx]);
+        int64_t idx64;
+        if (!_jbl_array_index(path->n[lastidx], &idx64)) {
+          return JBL_ERROR_PATCH_INVALID_ARRAY_INDEX;
+        }
+        int idx = (int) idx64;
         int cnt = idx;
         struct jbl_node *child = parent->child;
         while (child && cnt > 0) {
